@@ -13,6 +13,7 @@
 
 pub mod cli;
 pub mod engine;
+pub mod fuzz;
 pub mod gen;
 pub mod io;
 pub mod json;
